@@ -316,7 +316,7 @@ impl Run {
             .thread_name(|i| format!("shard-worker-{i}"))
             .build_global();
 
-        let known: Vec<KnownEntry> = match std::fs::read_to_string(root.join("known_findings.json")) {
+        let mut known: Vec<KnownEntry> = match std::fs::read_to_string(root.join("known_findings.json")) {
             Ok(t) => {
                 let v: Value = serde_json::from_str(&t).unwrap_or_else(|e| {
                     eprintln!("known_findings.json does not parse: {e}");
@@ -331,6 +331,17 @@ impl Run {
             }
             Err(_) => vec![],
         };
+        // development aid: per-property drafts in known_findings.d/<ID>.json (same format);
+        // merged into known_findings.json before they count
+        if let Ok(t) = std::fs::read_to_string(root.join("known_findings.d").join(format!("{prop}.json"))) {
+            match serde_json::from_str::<Value>(&t).ok().and_then(|v| v.get("findings").cloned()).and_then(|l| serde_json::from_value::<Vec<KnownEntry>>(l).ok()) {
+                Some(extra) => known.extend(extra.into_iter().filter(|k| k.property == prop)),
+                None => {
+                    eprintln!("known_findings.d/{prop}.json does not parse");
+                    std::process::exit(2)
+                }
+            }
+        }
         start_watchdog(prop.to_string(), root.clone());
         Run {
             prop: prop.to_string(),
@@ -783,7 +794,7 @@ impl Run {
             "violations": self.violations.len(),
         });
         if self.only.is_none() {
-            let dir = self.root.join("evidence");
+            let dir = std::env::var("VERIF_EVIDENCE_DIR").map(PathBuf::from).unwrap_or_else(|_| self.root.join("evidence"));
             let _ = std::fs::create_dir_all(&dir);
             let p = dir.join(format!("{}.json", self.prop));
             if let Err(e) = std::fs::write(&p, serde_json::to_string_pretty(&ev).unwrap()) {
